@@ -12,6 +12,8 @@
 //   N        open a new connection (closing the current one)         W<ms> sleep
 //   P        run the configured probe request of this protocol on a separate connection now (token p=<proto>:<hex>)
 //   P:<proto> same, for another protocol
+//   Z<ms>    hold the connection open (nothing is sent, no half-close) and wait up to <ms> for the SERVER to close it; token
+//            z=<1 closed | 0 still open>:<elapsed ms>   (run with FE_HTTP_TIMEOUT=<s>: the HTTP time-out watchdog must close it)
 //   M:<proto>:<k>  k connections of that protocol at the same time: all are opened, then the probe request is sent on every one,
 //                  then all replies are read (token m=<proto>:<k>,<replies containing the configured probe body>,<time-outs>)
 // result line: r=<hex>[!T] per R/E step, p=<hex>[!T] per P step, then
@@ -430,7 +432,7 @@ int main(int argc, char **argv)
 	cfg["http"]["script_names"][4] = "/probe";
 	cfg["http"]["script_names"][5] = "/upa";
 	cfg["http"]["script_names"][6] = "/upt";
-	cfg["http"]["timeout"] = 30;
+	cfg["http"]["timeout"] = getenv("FE_HTTP_TIMEOUT") ? atoi(getenv("FE_HTTP_TIMEOUT")) : 30;
 	cfg["security"]["content_length_limit"] = cl_limit;       // KB
 	cfg["security"]["multipart_form_data_limit"] = mp_limit;  // KB
 	cfg["security"]["uploads_path"] = g_dir;
@@ -502,7 +504,22 @@ int main(int argc, char **argv)
 					}
 				}
 				else if (s.size() > 1 && s[0] == 'W') { usleep(1000 * atoi(s.c_str() + 1)); }
-				else if (s.size() > 1 && (s[0] == 'X' || s[0] == 'V') && s[1] == ':') { /* annotation for the oracle */ }
+				else if (s.size() > 1 && s[0] == 'Z') {
+					int ms = atoi(s.c_str() + 1), waited = 0; bool cl = false;
+					while (c.fd >= 0 && waited < ms) {
+						if (c.server_closed()) { cl = true; break; }
+						pollfd pf; pf.fd = c.fd; pf.events = POLLIN; pf.revents = 0;
+						int pr = poll(&pf, 1, 20);
+						if (pr > 0) {
+							char tmp[4096]; ssize_t n = ::recv(c.fd, tmp, sizeof(tmp), MSG_DONTWAIT);
+							if (n == 0 || (n < 0 && errno != EAGAIN && errno != EWOULDBLOCK && errno != EINTR)) { cl = true; break; }
+							if (n > 0) leftover.append(tmp, n);
+						}
+						waited += 20;
+					}
+					out << "z=" << (cl ? 1 : 0) << ":" << waited << " ";
+				}
+				else if (s.size() > 1 && (s[0] == 'X' || s[0] == 'V' || s[0] == 'Y') && s[1] == ':') { /* annotation for the oracle */ }
 				else out << "BAD-STEP ";
 			}
 			c.closefd();
